@@ -77,6 +77,15 @@ def _mkrule(rng, ips):
             rng.choice(ips) if kind == 'dnat' else '1.2.3.4', rng.choice([80, 8080])]
 
 
+def _slash(rng, ops):
+    """(side stream) The caller of the last release names itself by the path of its directory WITH a trailing
+    slash: that is nobody's name (the owner recorded in a link is the last path component), so nothing may be
+    released."""
+    r2 = random.Random(repr(rng.getstate()[1][:4]))
+    if ops[-1][-1] is not None and r2.random() < 0.08:
+        ops[-1][-1] = ops[-1][-1] + '/'
+
+
 def gen_case(rng, pid, tier):
     nown = rng.randint(2, 5)
     owners = [_owner(i) for i in range(nown)]
@@ -191,10 +200,12 @@ def gen_case(rng, pid, tier):
             ops.append(['ecreate', sp, who])
         elif r < 0.77:
             ops.append(['eunlink', rng.choice(specs), None if (malformed and rng.random() < 0.2) else o])
+            _slash(rng, ops)
         elif r < 0.83:
             sp = rng.choice(specs)
             ops.append(['eunlinkall', sp[0], rng.choice([None, None, sp[1]]), rng.choice([None, None, sp[2]]),
                         None if (malformed and rng.random() < 0.2) else o])
+            _slash(rng, ops)
         elif r < 0.87:
             ops.append(gc_op('egc') if rng.random() < 0.85 else ['gcf', 'egc'])
         elif r < 0.94:
